@@ -34,7 +34,7 @@ def plan(tier):
 
 
 def ncases(tier):
-    return 500 if tier == "quick" else 9000
+    return 1500 if tier == "quick" else 9000
 
 
 def gen_case(rng, i):
